@@ -159,6 +159,7 @@ def run(ctx, rep):
     b3(F, rep)
     b4(F, rep)
     b5(F, rep)
+    b6(F, rep)
     # ---- B2 ---------------------------------------------------------------------------------------
     for en in ("CodecCorrection", "CodecMisprediction"):
         a = F.adts.get("preflate_rs::statistical_codec::" + en)
@@ -317,6 +318,30 @@ def b5(F, rep):
     r = rets(d)
     ok = len(r) == 1 and re.match(r"^((cast\()?(preflate_rs::)?cabac_codec::PredictionCabacContext::read_bypass\(arg<u8>, arg<&mut R>\)\)?|call:read_bypass)$", r[0]) is not None
     rep.add("B5", "decode_value-returns-read-value", ok, "%s:%s" % (d.file, d.line), "results: %s" % [x[:120] for x in r])
+
+
+def b6(F, rep):
+    """No operation sequence in the stated domain may make the codec fail: every explicit failure construct (assert!, unwrap,
+    panic!) in the codec modules must be a row of the reviewed failure-site table (the rows there say why it cannot fire:
+    in-memory writer/reader, defaults flushed before a value ...).  A new assert on a value — however well meant — is a new
+    way for encode/decode to abort and has to be reviewed."""
+    from .. import site as S
+    from ..tables import failure_sites as T
+    roots = F.roots_for(["preflate_rs::preflate_container::decompress_deflate_stream"])
+    sites, parent, defs = S.reachable_sites(F, roots)
+    n = 0
+    seen = set()
+    for (fn, kind, ordn), s in sorted(sites.items()):
+        short = fn.replace("preflate_rs::", "")
+        if not re.match(r"^<?(cabac_codec|statistical_codec)::|^<cabac_codec|^<preflate_rs::cabac_codec", short) and "cabac_codec::" not in short and "statistical_codec::" not in short:
+            continue
+        if (short, kind) in seen:
+            continue
+        seen.add((short, kind))
+        n += 1
+        rep.add("B6", "failure-construct-reviewed:%s|%s" % (short, kind), (short, kind) in T.ROWS, s["where"],
+                "reviewed: %s" % T.ROWS[(short, kind)][2] if (short, kind) in T.ROWS else "explicit failure construct in the codec that is not in the reviewed table")
+    rep.floor("B6", "codec-failure-constructs", n, 4)
 
 
 def _index_enum(U, b, op):
